@@ -248,7 +248,7 @@ func (t *HTMLTag) renderAttributes(w io.StringWriter) error {
 		if _, err := w.WriteString(`="`); err != nil {
 			return err
 		}
-		if _, err := w.WriteString(attr.Value); err != nil {
+		if _, err := w.WriteString(EscapeAttrValue(attr.Value)); err != nil {
 			return err
 		}
 		if _, err := w.WriteString(`"`); err != nil {
@@ -293,4 +293,14 @@ func (t *HTMLTag) renderAttributes(w io.StringWriter) error {
 		}
 	}
 	return nil
+}
+
+// EscapeAttrValue makes a value safe to stand between double quotes: a double quote in it
+// (written by the author as &quot;, or inside a single-quoted attribute) would otherwise end the
+// attribute early. Everything else is written as it is.
+func EscapeAttrValue(v string) string {
+	if strings.IndexByte(v, '"') < 0 {
+		return v
+	}
+	return strings.ReplaceAll(v, `"`, "&quot;")
 }
